@@ -1,0 +1,150 @@
+//go:build verif
+
+// Package verifhook provides trace/crash/gate hooks used by the external
+// verification harness. This file is compiled only with the "verif" build tag.
+package verifhook
+
+import (
+	"encoding/json"
+	"fmt"
+	"os"
+	"strconv"
+	"strings"
+	"sync"
+	"sync/atomic"
+	"syscall"
+)
+
+// On reports whether the hooks are compiled in.
+const On = true
+
+// Record is one trace event.
+type Record map[string]any
+
+var (
+	seq      atomic.Uint64
+	sinkLock sync.RWMutex
+	sink     func(Record)
+	fileOnce sync.Once
+	file     *os.File
+	role     = os.Getenv("VERIF_CRASH_ROLE")
+	crashAt  string
+	crashK   uint64 = 1
+	crashHit atomic.Uint64
+	gateLock sync.Mutex
+	gates    = map[string]chan struct{}{}
+	gateHit  = map[string]chan struct{}{}
+)
+
+func init() {
+	spec := os.Getenv("VERIF_CRASH_AT")
+	if spec != "" {
+		if i := strings.LastIndexByte(spec, '#'); i >= 0 {
+			if k, err := strconv.ParseUint(spec[i+1:], 10, 64); err == nil && k > 0 {
+				crashK = k
+			}
+			spec = spec[:i]
+		}
+		crashAt = spec
+	}
+}
+
+// SetSink installs an in-process receiver of trace events (nil removes it).
+// The sink is called synchronously from the emitting goroutine.
+func SetSink(f func(Record)) {
+	sinkLock.Lock()
+	sink = f
+	sinkLock.Unlock()
+}
+
+// SetRole sets the role name of this process for crash-point selection.
+func SetRole(r string) { role = r }
+
+// Role returns the role name of this process.
+func Role() string { return role }
+
+func openFile() {
+	name := os.Getenv("VERIF_TRACE")
+	if name == "" {
+		return
+	}
+	f, err := os.OpenFile(name, os.O_APPEND|os.O_CREATE|os.O_WRONLY, 0o600)
+	if err == nil {
+		file = f
+	}
+}
+
+// Emit records one trace event: node, event name and key/value pairs.
+func Emit(node string, ev string, kv ...any) {
+	sinkLock.RLock()
+	sk := sink
+	sinkLock.RUnlock()
+	fileOnce.Do(openFile)
+	if sk == nil && file == nil {
+		return
+	}
+	rec := Record{"n": node, "ev": ev, "i": seq.Add(1), "p": os.Getpid()}
+	for i := 0; i+1 < len(kv); i += 2 {
+		rec[fmt.Sprint(kv[i])] = kv[i+1]
+	}
+	if sk != nil {
+		sk(rec)
+	}
+	if file != nil {
+		b, err := json.Marshal(rec)
+		if err == nil {
+			b = append(b, '\n')
+			_, _ = file.Write(b) // one write(2) per line on an O_APPEND descriptor
+		}
+	}
+}
+
+// CrashPoint emits a "cp" event and, when VERIF_CRASH_AT=name[#k] selects this
+// point (and VERIF_CRASH_ROLE, if set on the selector side via
+// VERIF_CRASH_WHO, matches this process's role), kills the process with
+// SIGKILL on the k-th hit.
+func CrashPoint(name string) {
+	Emit(role, "cp", "name", name)
+	if crashAt == "" || crashAt != name {
+		return
+	}
+	if who := os.Getenv("VERIF_CRASH_WHO"); who != "" && who != role {
+		return
+	}
+	if crashHit.Add(1) == crashK {
+		_ = syscall.Kill(os.Getpid(), syscall.SIGKILL)
+		select {}
+	}
+}
+
+// HoldGate arms a named gate: the next goroutine reaching Gate(name) blocks
+// until the returned release function is called. hit is closed when a
+// goroutine has arrived at the gate.
+func HoldGate(name string) (hit <-chan struct{}, release func()) {
+	gateLock.Lock()
+	defer gateLock.Unlock()
+	g := make(chan struct{})
+	h := make(chan struct{})
+	gates[name] = g
+	gateHit[name] = h
+	var once sync.Once
+
+	return h, func() { once.Do(func() { close(g) }) }
+}
+
+// Gate blocks while the harness holds the named gate (one arrival per HoldGate).
+func Gate(name string) {
+	gateLock.Lock()
+	g, ok := gates[name]
+	h := gateHit[name]
+	if ok {
+		delete(gates, name)
+		delete(gateHit, name)
+	}
+	gateLock.Unlock()
+	if !ok {
+		return
+	}
+	close(h)
+	<-g
+}
